@@ -146,6 +146,7 @@ static long      app_total_cb; /* callbacks delivered in this case */
 enum { AA_START = 1, AA_CANCEL, AA_SET_SERVERS, AA_SET_SORTLIST, AA_REINIT, AA_READONLY, AA_DUP, AA_JUMP, AA_LOCALADDR, AA_ADVERSARY, AA_SRVMOOD, AA_CKBEHAVE };
 static void ck_set_behaviour(int srv, int b);
 static void (*hl_config_hook)(const int *idx, int n); /* server list (re)installed */
+static void (*hl_preconfig_hook)(const int *idx, int n); /* server list about to be installed */
 static void gen_srv_mood_fwd(int srv, int moodidx);
 static void prov_inject(void);
 typedef struct {
@@ -1086,9 +1087,17 @@ static void app_set_servers_now(int arg, int quiescent)
             app_srv_ever_mask |= 1u << idx[x];
           }
         }
+        if (hl_preconfig_hook) {
+          hl_preconfig_hook(idx, n);
+        }
         app_in_set_servers = 1;
         x_rc = (int)ares_set_servers_ports_csv(app_channel, csv);
         app_in_set_servers = 0;
+        if (vh_verbose) {
+          char *now_csv = ares_get_servers_csv(app_channel);
+          vh_trace("set_servers '%s' -> %d; list now '%s'", csv, x_rc, now_csv ? now_csv : "(null)");
+          ares_free_string(now_csv);
+        }
         if (x_rc == ARES_SUCCESS) {
           /* does the SET of servers differ? (re-installing the same set is not a change) */
           int differs = (n != app_cfg.nsrv_cfg), x, y;
